@@ -162,19 +162,18 @@ Example C08_compare_ex : Comparator_m 4 9 12 = (0, 0, 1) /\ ComparatorSU_m 4 9 3
   EqualConstant_m 3 1 5 5 = 1 /\ NotEqualConstant_m 1 1 0 0 = 0 /\ Swap_m 3 3 1 6 1 = (6, 1) /\ fits 4 9 /\ fits 4 12.
 Proof. vm_compute. repeat split; try reflexivity; discriminate. Qed.
 
-Print Assumptions C08_buf. Print Assumptions C08_not. Print Assumptions C08_constant. Print Assumptions C08_and2. Print Assumptions C08_or2.
-Print Assumptions C08_nand2. Print Assumptions C08_nor2. Print Assumptions C08_xor2. Print Assumptions C08_xor2_wide_refuted.
-Print Assumptions C08_and. Print Assumptions C08_or. Print Assumptions C08_xor. Print Assumptions C08_nor.
-Print Assumptions C08_andbits. Print Assumptions C08_orbits.
-Print Assumptions C08_bit. Print Assumptions C08_range. Print Assumptions C08_bits_lsbf. Print Assumptions C08_bits_msbf.
-Print Assumptions C08_repeat. Print Assumptions C08_bufenable.
-Print Assumptions C08_concatenate_msbf. Print Assumptions C08_concatenate_lsbf. Print Assumptions C08_concatenate_msbf_exact. Print Assumptions C08_concatenate_lsbf_exact.
-Print Assumptions C08_mux2. Print Assumptions C08_mux. Print Assumptions C08_decoder. Print Assumptions C08_demux.
-Print Assumptions C08_onehot_mux. Print Assumptions C08_select. Print Assumptions C08_onehot_mux_selected. Print Assumptions C08_onehot_demux.
-Print Assumptions C08_select_default. Print Assumptions C08_priority_encoder. Print Assumptions C08_priority_encoder_at.
-Print Assumptions C08_minterm. Print Assumptions C08_sum_of_minterms.
-Print Assumptions C08_equal_constant. Print Assumptions C08_not_equal_constant. Print Assumptions C08_equal. Print Assumptions C08_equal_general.
-Print Assumptions C08_equal_wide_refuted. Print Assumptions C08_any_equal. Print Assumptions C08_any_equal_meaning.
-Print Assumptions C08_comparator. Print Assumptions C08_comparator_signed_unsigned.
-Print Assumptions C08_max2. Print Assumptions C08_min2. Print Assumptions C08_signed_max2. Print Assumptions C08_signed_min2.
-Print Assumptions C08_signed_max_min_meaning. Print Assumptions C08_swap.
+(* one Print Assumptions over the tuple of ALL theorems above (53 separate ones cost ~40 s): any axiom used by any of them
+   would be listed here. *)
+Definition C08_all_theorems :=
+  (C08_buf, C08_not, C08_constant, C08_and2, C08_or2,
+   C08_nand2, C08_nor2, C08_xor2, C08_xor2_wide_refuted, C08_and,
+   C08_or, C08_xor, C08_nor, C08_andbits, C08_orbits,
+   C08_bit, C08_range, C08_bits_lsbf, C08_bits_msbf, C08_repeat,
+   C08_bufenable, C08_concatenate_msbf, C08_concatenate_lsbf, C08_concatenate_msbf_exact, C08_concatenate_lsbf_exact,
+   C08_mux2, C08_mux, C08_decoder, C08_demux, C08_onehot_mux,
+   C08_select, C08_onehot_mux_selected, C08_onehot_demux, C08_select_default, C08_priority_encoder,
+   C08_priority_encoder_at, C08_minterm, C08_sum_of_minterms, C08_equal_constant, C08_not_equal_constant,
+   C08_equal, C08_equal_general, C08_equal_wide_refuted, C08_any_equal, C08_any_equal_meaning,
+   C08_comparator, C08_comparator_signed_unsigned, C08_max2, C08_min2, C08_signed_max2,
+   C08_signed_min2, C08_signed_max_min_meaning, C08_swap).
+Print Assumptions C08_all_theorems.
